@@ -53,6 +53,16 @@ def loops_over_nullable_bodies(tier):
     return ["(%s)%s%s" % (b, l, t) for b in bodies for l in loops for t in tails]
 
 
+def many_positions(tier):
+    """Patterns with 10 to 40 positions: a loop or an option in front (small position numbers in one state) and a long tail (two-digit
+    numbers in another), loops in the middle and at the end."""
+    tails = ["cdefghijklmn", "cdefghijklmnopqrstuvwx", "cdefgh(ij)*klmn", "cdefghijk[lm]n?"]
+    heads = ["(ab)*", "a?b?", "(a|b)*", "(ab|a)", "a*b*"]
+    out = [h + t for h in heads for t in tails]
+    out += ["abcdefghij(k|l)*mnopq", "(abcdefghijkl)*m", "a(bcdefghijk)?(lmnopqrst)?u", "(a|b|c|d|e|f|g|h|i|j|k|l)+m"]
+    return out if tier != "quick" else out[::2] + out[-4:]
+
+
 PREFIX_ALTERNATIONS = ["a|ab", "ab|a", "=|==", "[a-z]+|if", "if|[a-z]+", "a|ab|abc", "abc|ab|a", "(a|ab)c", "(a|ab)*", "x(a|ab|b)y", "a?|ab", "a|a*b",
                        "(a|ab)(c|bcd)", "0|0x[0-9]+", "[0-9]+|[0-9]+\\.[0-9]+"]
 
@@ -149,7 +159,7 @@ QUANT_FORMS = [("?", "QOpt"), ("*", "QStar"), ("+", "QPlus"), ("{0}", "QRange 0 
 
 
 def patterns_for(tier, rng):
-    pats = R.corpus(PROP) + NULLABLE_SHAPES + PREFIX_ALTERNATIONS + followpos_shapes(tier) + quantified_nullable_groups(tier) + loops_over_nullable_bodies(tier) + list(R.EVERY_CONSTRUCT) + list(R.EDGE_BLANKS)
+    pats = R.corpus(PROP) + NULLABLE_SHAPES + PREFIX_ALTERNATIONS + followpos_shapes(tier) + quantified_nullable_groups(tier) + loops_over_nullable_bodies(tier) + many_positions(tier) + list(R.EVERY_CONSTRUCT) + list(R.EDGE_BLANKS)
     pats += R.small_exhaustive() if tier != "quick" else R.small_exhaustive()[::3]
     n = 120 if tier == "quick" else 2500
     for _ in range(n):
